@@ -133,7 +133,7 @@ PROPS = {
               "transform twice on a guarded exact-size buffer; distinct by descriptor hash; non-trivial when m >= 2 "
               "and the input is non-zero"),
         require={"all": ["concurrent_entry_calls", "transforms_checked", "horner_validations", "impl:dispatch-native", "impl:dispatch-generic",
-                         "impl:ref-direct", "impl:avx2-direct", "impl:leaf-avx", "impl:leaf-ref", "impl:bfs16-ref", "impl:builtin-buffers", "impl:naive", "tables_built_concurrently", "cold_process_constructions", "table_lifecycle_checks",
+                         "impl:ref-direct", "impl:avx2-direct", "impl:leaf-avx", "impl:leaf-ref", "impl:bfs16-ref", "impl:builtin-buffers", "impl:naive", "tables_built_concurrently", "cold_process_constructions", "table_lifecycle_checks", "simple_sequence_calls",
                          "impl:rec16-ref"]},
         assumptions=["long-double FFT oracle (own twiddles by cosl/sinl), its rounding (about log2(m) 2^-64 relative) "
                      "added to the tolerance; validated per case against __float128 Horner evaluation at sampled outputs",
@@ -194,7 +194,7 @@ PROPS = {
               "its output and scratch buffers (entry point, N, dispatch, seed -> shape, strides, operands), or one "
               "new/delete cycle batch; distinct by descriptor hash; non-trivial when at least one buffer is non-empty "
               "(zero-size classes are counted separately in shape:*)"),
-        require={"all": ["instrumented_calls", "scratch_bytes_exact", "object_cycles", "leak_check_rounds",
+        require={"all": ["instrumented_calls", "scratch_bytes_exact", "object_cycles", "leak_check_rounds", "builtin_buffer_bytes_checked",
                          "memcheck_definedness_checks"]},
         assumptions=["every buffer is allocated at exactly the documented size (bytes_of_*, *_tmp_bytes) between "
                      "ASan-poisoned, canary-filled guard bands; misalignments are multiples of 8 bytes (16 for __int128)",
@@ -210,7 +210,7 @@ PROPS = {
               "points of the phase on private data against the shared modules/tables; distinct by descriptor hash; "
               "non-trivial when at least one pair of calls from different threads overlapped in time"),
         require={"all": ["concurrent_calls", "overlapping_call_pairs", "tsan_instrumented_calls", "ro_protected_bytes",
-                         "schedule:free", "schedule:pinned-2cpu", "schedule:yield", "concurrent_constructions", "first_use_cases", "shared_objects_dispatch:generic", "shared_objects_dispatch:native",
+                         "schedule:free", "schedule:pinned-2cpu", "schedule:yield", "concurrent_constructions", "first_use_cases", "concurrently_allocated_objects", "simple_vs_table_twin_checks", "shared_objects_dispatch:generic", "shared_objects_dispatch:native",
                          "entry_points_observed_concurrently", "overlap_pairs"]},
         assumptions=["gcc ThreadSanitizer happens-before detection (does not see accesses made inside the four .s kernels, "
                      "which only touch caller data)", "in the 'ro' build every allocation made while creating modules and "
@@ -238,7 +238,7 @@ PROPS = {
               "entry point called with several argument seeds, each call with byte snapshots of all its source buffers "
               "(padding included) and a table hash after each entry point; distinct by descriptor hash; non-trivial when "
               "at least one call with a non-empty source ran"),
-        require={"all": ["calls_snapshotted", "source_bytes_compared", "table_bytes_compared", "ro_protected_bytes", "inplace_tail_checks"]},
+        require={"all": ["calls_snapshotted", "source_bytes_compared", "table_bytes_compared", "ro_protected_bytes", "inplace_tail_checks", "role_rotation_calls"]},
         assumptions=["sources deliberately overwritten by contract are declared INOUT in the catalogue (vec_znx_idft_tmp_a, "
                      "in-place transforms, accumulating products) and are not snapshotted",
                      "table hashes cover every allocation whose layout is known; in the 'ro' build all allocations made "
